@@ -196,6 +196,64 @@ def run_models(ctx):
                                       dict(kind="normalized", cfg=cfg, k=k, which=nm))
 
 
+def run_rotators(ctx):
+    """single-set rotators offer both directions too: with every mode rotated, inverse_transform(scores()) restores the data at
+    every label that is not entirely missing, and transform(inverse_transform(S)) returns S for arbitrary S; data with and
+    without fully missing samples"""
+    import xarray as xr
+    import xeofs as xe
+    rng = ctx.rng.child("c03rot").np
+    for i in range(ctx.n(36, 400)):
+        cplx = (i % 3 == 2)
+        n, p = int(rng.integers(9, 16)), int(rng.integers(3, 6))
+        X = rng.standard_normal((n, p)) @ np.diag(np.linspace(2.0, 0.6, p)) @ rng.standard_normal((p, p)) + rng.standard_normal(p) * 2
+        if cplx:
+            X = X + 1j * rng.standard_normal((n, p))
+        missing = sorted(set(int(v) for v in rng.integers(0, n, size=int(rng.integers(0, 4))))) if i % 2 == 0 else []
+        X[missing, :] = np.nan
+        da = xr.DataArray(X, dims=("time", "x"), coords={"time": np.arange(n) * 3 + 1, "x": np.arange(p)})
+        power = int(rng.integers(1, 3))
+        center = bool(rng.random() < 0.8)
+        name = "ComplexEOF" if cplx else "EOF"
+        replay = dict(kind="rotator", cls=name, X=X, power=power, center=center, missing=missing)
+        ctx.case(("c03rot", name, n, p, power, center, tuple(missing), i), nontrivial=True,
+                 tag="%sRotator/power%d/%s" % (name, power, "missing-samples" if missing else "complete"),
+                 sample=dict(cls=name + "Rotator", shape=[n, p], power=power, center=center, missing_samples=len(missing)))
+        try:
+            m = (xe.single.ComplexEOF if cplx else xe.single.EOF)(n_modes=p, center=center, solver="full")
+            m.fit(da, "time")
+            rot = (xe.single.ComplexEOFRotator if cplx else xe.single.EOFRotator)(n_modes=p, power=power, max_iter=5000, rtol=1e-10)
+            rot.fit(m)
+            rec = rot.inverse_transform(rot.scores())
+            k = int(rng.integers(1, p + 1))
+            ms = int(rng.integers(1, 5))
+            S = rng.standard_normal((ms, p)) * float(np.nanmax(np.abs(X)))
+            Sd = xr.DataArray(S, dims=("time", "mode"), coords={"time": np.arange(ms) + 100, "mode": np.arange(1, p + 1)})
+            back = rot.transform(rot.inverse_transform(Sd))
+        except RuntimeError as e:
+            if "converge" in str(e):
+                ctx.dist["rotation-did-not-converge"] += 1
+                continue
+            ctx.violation("C03:error:%sRotator:%s" % (name, C.errkind(e)), "%sRotator round trip raised %r" % (name, e), replay)
+            continue
+        except Exception as e:
+            ctx.violation("C03:error:%sRotator:%s" % (name, C.errkind(e)), "%sRotator round trip raised %r" % (name, e), replay)
+            continue
+        valid = [t for t in range(n) if t not in missing]
+        got = rec.transpose("time", "x").values[valid]
+        want = X[valid]
+        scale = float(np.nanmax(np.abs(X)))
+        if min(len(valid) - (1 if center else 0), p) >= p and not valid_eq(got, want, scale, 1e-6):
+            ctx.violation("C03:full-reconstruction:%sRotator" % name,
+                          "%sRotator(power=%d) with all %d modes rotated on data with %d fully missing samples: inverse_transform(scores()) differs from the data "
+                          "by %.3g (scale %.3g) at the labels that are not missing" % (name, power, p, len(missing), float(np.nanmax(np.abs(got - want))), scale), replay)
+        bv = back.transpose("time", "mode").values
+        if not valid_eq(bv, S, float(np.abs(S).max()), 1e-6):
+            ctx.violation("C03:transform-inverse:%sRotator" % name,
+                          "%sRotator(power=%d) on data with %d fully missing samples: transform(inverse_transform(S)) != S for an arbitrary %dx%d score array "
+                          "(ratio %.6g)" % (name, power, len(missing), ms, p, float(np.nanmedian(np.abs(bv) / np.abs(S)))), replay)
+
+
 def run_cross(ctx):
     """cross-set models: each field whose feature count does not exceed the number of modes is restored"""
     import xarray as xr
@@ -330,6 +388,7 @@ def run(ctx):
     run_hilbert(ctx)
     probe_hilbert_uncentred(ctx)
     run_cross(ctx)
+    run_rotators(ctx)
 
 
 def search(ctx):
